@@ -282,7 +282,9 @@ pub enum ScanItem {
 
 struct StorageResolver<'a, B, OC, SC, L> {
     storage: &'a Storage<B, OC, SC, L>,
-    chain: Mutex<Vec<PlainRef>>,
+    // the references each thread is currently loading (a resolver may be shared between threads:
+    // one thread's nesting must not be mistaken for another's recursion)
+    chain: Mutex<Vec<(std::thread::ThreadId, PlainRef)>>,
 }
 impl<'a, B, OC, SC, L> StorageResolver<'a, B, OC, SC, L> {
     pub fn new(storage: &'a Storage<B, OC, SC, L>) -> Self {
@@ -317,14 +319,15 @@ where
     fn get<T: Object+DataSize>(&self, r: Ref<T>) -> Result<RcRef<T>> {
         let key = r.get_inner();
         self.storage.log.log_get(key);
+        let thread = std::thread::current().id();
         
         {
             debug!("get {key:?} as {}", std::any::type_name::<T>());
             let mut chain = self.chain.lock().unwrap();
-            if chain.contains(&key) {
+            if chain.contains(&(thread, key)) {
                 bail!("Recursive reference");
             }
-            chain.push(key);
+            chain.push((thread, key));
         }
         #[cfg(pdf_verif)]
         crate::verif::yield_point("get:after-push", key.id);
@@ -332,7 +335,9 @@ where
             #[cfg(pdf_verif)]
             crate::verif::yield_point("get:before-pop", key.id);
             let mut chain = self.chain.lock().unwrap();
-            assert_eq!(chain.pop(), Some(key));
+            // loads nest per thread: the innermost entry of *this* thread is the one to remove
+            let innermost = chain.iter().rposition(|&(t, _)| t == thread);
+            assert_eq!(innermost.map(|i| chain.remove(i).1), Some(key));
         });
         
         let res = self.storage.cache.get_or_compute(key, || {
